@@ -13,7 +13,7 @@ import time
 HERE = os.path.dirname(os.path.abspath(__file__))
 VERIF = os.path.dirname(HERE)
 REPO = os.environ.get("VERIF_REPO", "/repo")
-CACHE = os.path.join(VERIF, ".cache")
+CACHE = os.environ.get("VERIF_CACHE", os.path.join(VERIF, ".cache"))
 DRV_DIR = os.path.join(HERE, "bbdrv")
 DRV_BIN = os.path.join(DRV_DIR, "target", "debug", "bbdrv")
 GENSRC_DIR = os.path.join(HERE, "gensrc")
@@ -109,6 +109,8 @@ arbitrary-int = "1.3.0"
 
 
 def write_workspace(ws, crates):
+    if os.path.isdir(ws):
+        shutil.rmtree(ws)
     os.makedirs(ws, exist_ok=True)
     members = []
     model = {}
@@ -263,6 +265,71 @@ def build(tier, seed, verbose=True):
         t.start()
     for t in threads:
         t.join()
+    # localise build failures of positive crates: quarantine the items that own the errors and rebuild
+    # only the affected crates, so every other obligation still gets a verdict (DESIGN.md section 2)
+    by_name = {c.name: c for c in pos}
+    for rnd in range(1, 4):
+        failed = [c for c in results["main"]["diags"] if c in by_name]
+        if not failed:
+            break
+        redo = []
+        for cname in failed:
+            c = by_name[cname]
+            decls = model[cname]["decls"]
+            progress = False
+            stray = 0
+            for x in results["main"]["diags"][cname]:
+                owner = None
+                for a in x["at"]:
+                    ln = a.get("line")
+                    if not ln:
+                        continue
+                    for d in decls:
+                        if d.get("skip"):
+                            continue
+                        if d["line0"] <= ln <= d["line1"]:
+                            owner = d
+                            break
+                        for k in d.get("consts", []):
+                            if not k.get("skip") and k.get("line") in (ln, ln + 1):
+                                owner = k
+                                break
+                        if owner:
+                            break
+                    if owner:
+                        break
+                if owner is None:
+                    stray += 1
+                    continue
+                owner.setdefault("quarantined", []).append({"code": x.get("code"), "message": x.get("message", "")[:300], "round": rnd})
+                progress = True
+            for d in decls:
+                if d.get("quarantined"):
+                    d["skip"] = True
+                for k in d.get("consts", []):
+                    if k.get("quarantined"):
+                        k["skip"] = True
+            if progress:
+                redo.append(c)
+        if not redo:
+            break
+        ws_r = os.path.join(out, "ws_retry%d" % rnd)
+        m2 = write_workspace(ws_r, redo)
+        model.update(m2)
+        write_hints(os.path.join(out, "hints"), model)
+        for c in redo:
+            fp = os.path.join(out, "facts", c.name + ".facts.json")
+            if os.path.exists(fp):
+                os.remove(fp)
+        tr = os.path.join(out, "target_retry%d" % rnd)
+        rr = run_cargo(ws_r, out, tr, label="retry%d" % rnd)
+        shutil.rmtree(tr, ignore_errors=True)
+        # the retry's diagnostics replace those of the rebuilt crates
+        for c in redo:
+            results["main"]["diags"].pop(c.name, None)
+        for cname, ds in rr["diags"].items():
+            results["main"]["diags"][cname] = ds
+        results["retry%d" % rnd] = {"label": "retry%d" % rnd, "rc": rr["rc"], "wall_s": rr["wall_s"], "diags": {}, "built": rr["built"], "stderr_tail": rr["stderr_tail"]}
     runs = [results[k] for k in sorted(results)]
     for d in (target, target_neg, os.path.join(out, "target_rel")):
         shutil.rmtree(d, ignore_errors=True)
